@@ -1,5 +1,6 @@
 import I18n.Lemmas.PoUnescape
 import I18n.Lemmas.PoFlags
+import I18n.Lemmas.PoPre
 /-! # C10 — PO text decodes to exactly the strings gettext would see
 
 Model: `I18n.Po` (Model/Po.lean) — `polib.pofile` after `lib.polib4us.install_patches()`.
@@ -114,6 +115,58 @@ theorem flags_split (env : Env) (enc : Bytes) (hcomma : env.isSpace ',' = false)
     · exact hold f hf
     · exact (hv x hx).1)
   simp only [handle, List.drop_succ_cons, List.drop_zero, h1, h2]
+
+/-! ## loading -/
+
+/-- **load_spells_partial** (the full `load_spells` of the design covers comment lines too; see OUTSTANDING in the notes).
+    For every catalog of messages and every spelling of it as message lines — per message an optional `msgctxt`, `msgid`,
+    then `msgstr` or `msgid_plural` with `msgstr[0]` … `msgstr[N]` (N ≤ 9), every string spelled with any valid per-character
+    choices and cut anywhere into continuation lines (empty segments included), every line with blanks/tabs before it and any
+    white space after it, the whole entry behind the obsolete marker `#~` or not, and noise lines (white-space lines, `#~| …`,
+    bare `#.` `#:` `#,`) before the first entry and after any line except the last — polib's line loop, run on those lines
+    in any environment where the charset is ASCII-transparent and decodes what it encodes, yields exactly the catalog:
+    `msgctxt`, `msgid`, `msgid_plural`, `msgstr`, the indexed plural strings and the obsolete flag of every entry, in order
+    (line numbers aside), with an empty file header. -/
+theorem load_spells_partial (E : Codec) (env : Env) (hsp : env.isSpace = pyIsSpace) (hdec : env.decimal = pyDecimal) (enc : Bytes)
+    (hE : CodecOk env enc E) (noise0 : List Noise) (hn : ∀ z ∈ noise0, z.Valid) (ms : List MsgSp) (hne : ms ≠ [])
+    (hv : ∀ m ∈ ms, m.Valid E) (hend : ∀ m, ms.getLast? = some m → m.EndsReal) :
+    ∃ f, parseLines env enc (noise0.map Noise.render ++ ms.flatMap MsgSp.lines) = .ok f ∧ f.header = [] ∧
+      f.entries.map Lemmas.PoCatalog.content = ms.map (fun m => m.entry {}) :=
+  Lemmas.PoCatalog.parse_msgs E env hsp hdec enc hE noise0 hn ms hne hv hend
+
+/-- non-vacuity: `msgid "a"` / `msgstr ""` / `"b\n"` followed by a bare `#.` inside the entry -/
+def sampleMsg : MsgSp where
+  pre := .plain
+  msgctxt := none
+  msgid := ⟨[' '], ⟨[], [.raw 'a'], ['\n']⟩, [], []⟩
+  body := .singular ⟨[' '], ⟨[], [], ['\n']⟩, [.bare [] '.' ['\n']], [(⟨[], [.raw 'b', .simple 0], ['\n']⟩, [])]⟩
+
+example : sampleMsg.lines = ["msgid \"a\"\n".toList, "msgstr \"\"\n".toList, "#.\n".toList, "\"b\\n\"\n".toList] := by decide
+
+example : sampleMsg.Valid asciiCodec ∧ sampleMsg.EndsReal := by
+  refine ⟨⟨Or.inl rfl, by simp [sampleMsg], ?_, ?_⟩, rfl⟩
+  · simp [sampleMsg, StrSp.Valid, Seg.Valid, Blank, Choice.Valid, rawOk, okSeq]; decide
+  · simp [sampleMsg, StrSp.Valid, Seg.Valid, Blank, Choice.Valid, rawOk, okSeq, okAdj, Noise.Valid]; decide
+
+example : sampleMsg.entry {} = { msgid := ['a'], msgstr := some ['b', '\n'] } := by decide
+
+/-- `Codecs.open` yields every physical line up to the last one it does not hold back, in order (atypical comments
+    normalised), and drops the held-back lines after it (fix ed9c45c put the comment forms polib skips among them) -/
+theorem codecs_open_keeps_body (env : Env) (contents : Text) (b : List Text) (l : Text) (hl : ¬ Lemmas.PoPre.Held env l)
+    (tail : List Text) (ht : ∀ x ∈ tail, Lemmas.PoPre.Held env x) (hlines : physLines contents = b ++ l :: tail) :
+    preprocess env contents = (b ++ [l]).map normalise :=
+  Lemmas.PoPre.preprocess_body env contents b l hl tail ht hlines
+
+/-- the physical lines of a file are its `\n`-terminated pieces: no other character ends a line (Debian #692283) -/
+theorem phys_lines (ls : List Text) (h : ∀ l ∈ ls, Lemmas.PoPre.IsLine l) : physLines ls.flatten = ls :=
+  Lemmas.PoPre.physLines_flatten ls h
+
+/-- fix ed9c45c, the witness: the last message survives a trailing comment polib skips -/
+theorem trailing_ignored_comment_witness :
+    (match loadWith asciiEnv asciiName ("msgid \"a\"\nmsgstr \"b\"\n#.\n".toList.map fun c => UInt8.ofNat c.toNat) with
+      | .ok f => decide (f.entries.map (fun e => (e.msgid, e.msgstr)) = [(['a'], some ['b'])])
+      | .error _ => false) = true := by
+  decide
 
 /-- `translated()` as patched: not obsolete, not fuzzy, and `msgstr` or some plural form non-empty -/
 theorem translated_iff (e : Entry) :
